@@ -616,7 +616,7 @@ def _gen_instr(rng, sp, pool, max_pool, defect=False):
                      + ['affine'] * 6 + ['section'] * 2 + ['extrude'] + ['clone'])
     ncomp = o.dimension + (1 if o.rational else 0)
     if fam == 'insert':
-        if small[d] or ncp > 400:
+        if small[d] or ncp > 300 or o.shape[d] > 48:
             return None
         cnt = rng.choice([1, 1, 1, 2, 3])
         refs = _knot_refs(rng, b, cnt, allow_end=False)
@@ -628,7 +628,7 @@ def _gen_instr(rng, sp, pool, max_pool, defect=False):
             ins['refs'] = [['d', rng.choice([1.25, -0.5, 2.375, -1.75])]]
         return ins
     if fam == 'refine':
-        if any(small) or ncp * (2 ** pd) > 400 or any(_min_span(x) < 2.0 ** -10 for x in o.bases):
+        if any(small) or ncp * (2 ** pd) > 300 or max(o.shape) > 40 or any(_min_span(x) < 2.0 ** -10 for x in o.bases):
             return None
         if rng.random() < 0.5:
             return {'op': 'refine', 'i': i, 'ns': [rng.choice([1, 1, 2])], 'dir': d}
@@ -636,8 +636,8 @@ def _gen_instr(rng, sp, pool, max_pool, defect=False):
             return {'op': 'refine', 'i': i, 'ns': [1], 'dir': -1}
         return {'op': 'refine', 'i': i, 'ns': [rng.choice([0, 1, 2]) for _ in range(pd)], 'dir': -1}
     if fam == 'raise':
-        if 1 in orders or ncp > 150 or max(orders) >= 6 or any(_overfull(x) for x in o.bases):
-            return None
+        if 1 in orders or ncp > 120 or max(o.shape) > 16 or max(orders) >= 6 or any(_overfull(x) for x in o.bases):
+            return None          # (size limits: the model inverts the collocation matrices in exact arithmetic)
         if pd == 1:
             return {'op': 'raise', 'i': i, 'amounts': [rng.choice([1, 1, 2, 0])], 'dir': None}
         r = rng.random()
@@ -647,7 +647,7 @@ def _gen_instr(rng, sp, pool, max_pool, defect=False):
             return {'op': 'raise', 'i': i, 'amounts': [1], 'dir': None}
         return {'op': 'raise', 'i': i, 'amounts': [rng.choice([0, 1, 1, 2]) for _ in range(pd)], 'dir': None}
     if fam == 'lower':
-        if not roomy or any(p >= 0 for p in per) or ncp > 150 or any(_overfull(x) for x in o.bases):
+        if not roomy or any(p >= 0 for p in per) or ncp > 120 or max(o.shape) > 16 or any(_overfull(x) for x in o.bases):
             return None
         lowers = [1 if (x >= 3 and rng.random() < 0.7) else 0 for x in orders]
         if not any(lowers):
@@ -686,7 +686,8 @@ def _gen_instr(rng, sp, pool, max_pool, defect=False):
             return None
         j = rng.choice(cands)
         c = pool[j]
-        if orders[0] != c.order(0) and (1 in (orders[0], c.order(0)) or _overfull(o.bases[0]) or _overfull(c.bases[0])):
+        if orders[0] != c.order(0) and (1 in (orders[0], c.order(0)) or _overfull(o.bases[0]) or _overfull(c.bases[0])
+                                        or max(len(o), len(c)) > 16):
             return None
         if orders[0] == 1:
             return None          # C07 known finding append-order-1-pieces (geometry); structure is exercised by the others
